@@ -472,8 +472,9 @@ where
             "sw" => {
                 let _ = factory.update_settings(UpdateSettingsRequest::builder().worker_count(num(1)).build());
             }
-            "xs" => {
-                // graceful stop from outside of the newest live actor of worker w; its post_stop is held back
+            "xs" | "xg" => {
+                // xs: graceful stop from outside of the newest live actor of worker w; its post_stop is held back
+                // xg: only the mark: that actor's post_stop will be held back whoever stops it later (a pool shrink)
                 let wid = num(1);
                 let target = {
                     let s = sh.lock().unwrap();
@@ -494,7 +495,9 @@ where
                 };
                 if let Some(aid) = target {
                     sh.lock().unwrap().xgated.insert(aid);
-                    cells[&aid].stop(None);
+                    if w[0] == "xs" {
+                        cells[&aid].stop(None);
+                    }
                 }
             }
             "xr" => {
